@@ -156,6 +156,11 @@ def gen_stack_cases(rng, tier):
     for i in range(4 if tier == "quick" else 40):
         junk = bytes(rng.randrange(256) for _ in range(rng.randrange(1, 200)))
         cases.append(["hostile role=s,type=PULL %s %s" % (E.hexspec(junk), rng.choice(["-", "1", "3,9"]))])
+    # a protocol violation closes the connection (the peer sees the end of the stream), on the default backend
+    hs0 = b"".join(b for _, b in E.peer_handshake(rng, {"role": "s", "type": "PULL"}, peer_type="PUSH"))
+    cases.append(["errclose role=s,type=PULL %s" % E.hexspec(bytes(range(1, 13)) * 6)])
+    cases.append(["errclose role=s,type=PULL,max=1000 %s" % E.hexspec(hs0 + bytes([2]) + (5000).to_bytes(8, "big") + b"xx")])
+    cases.append(["errclose role=s,type=PULL,hbivl=150,hbto=400 %s idle" % E.hexspec(hs0)])
     # k frames of one message towards a socket that prepends a frame of its own (ROUTER) and one that does not (PULL): at the frame
     # limit the receiving side must refuse or deliver, never panic in the application's recv()
     for rty, peer, extra in (("ROUTER", "DEALER", {"autodelim": 0}), ("PULL", "PUSH", {})):
@@ -191,7 +196,7 @@ def gen_stack_cases(rng, tier):
 
 
 def nontrivial(case, impl):
-    return any("E(" in l or "err" in l or "D(" in l or "closed=" in l or "survived=" in l for l in impl)
+    return any("E(" in l or "err" in l or "D(" in l or "closed=" in l or "survived=" in l or "errclose=" in l for l in impl)
 
 
 SPEC = {
